@@ -260,3 +260,9 @@ def c_binary_sign(ctx, it, cfg):
     steps(ctx, 'stable-classes-above-the-critical-radius-grow', 0, nb, chain(True))
     steps(ctx, 'stable-classes-below-the-critical-radius-shrink', 0, nb, chain(False))
     ctx.prove('canary/index-always-zero', eq(idx, 0), expect='refuted')
+
+
+# the sampling driving force of a temperature is computed from free-energy samples of THAT temperature (cache contract shared with C09):
+# without it the driving force does not change sign at the solvus of the queried temperature
+from . import c09 as _c09
+REG.contracts.append(_c09.c_sampling_cache.contract)
